@@ -17,7 +17,7 @@ ID = 'C01'
 PROFILES = ['debug', 'release']
 CASE_TIMEOUT = 1500
 THEOREMS = ['C01_no_panic', 'C01_no_panic_release', 'C01_terminates', 'C01_two_outcomes', 'C01_dump_root_terminates',
-            'C01_shipped_spec_wellformed', 'C01_panic_sources', 'C01_root_missing_rejected']
+            'C01_shipped_spec_wellformed', 'C01_panic_sources', 'C01_root_missing_rejected', 'C01_full_no_panic', 'C01_full_two_outcomes']
 MODEL_PER_PROFILE = True
 RULE = ('structured: random catalogs (1..5 pages, nested page-tree nodes, fonts, 1..3 content streams per page, '
         'filters none/Flate/AHx/A85 and chains, predictors) x hostile mutation of ONE point: each numeric parameter '
